@@ -132,6 +132,27 @@ theorem send_cb_once (sc : Script) (conn mm : Bool) (steps : List Step) :
     rw [← h.seqs]; exact h.acc.map _
   exact h1.nodup List.nodup_range
 
+/-- after uv__udp_finish_close nothing is owed any more on the closing path: every request still in the
+write queue is moved to the completed queue with UV_ECANCELED before the completion run (one step, any state) -/
+theorem close_cancels_queued (s : H) :
+    let s' : H := { s with cq := s.cq ++ s.wq.map (fun d => (d, UV_ECANCELED)), wq := [] }
+    s'.owed = s.owed ∧ s'.wq = [] ∧ ∀ d ∈ s.wq, (d, UV_ECANCELED) ∈ s'.cq := by
+  refine ⟨by simp [H.owed, List.map_map, Function.comp_def], rfl, fun d hd => ?_⟩
+  simp only [List.mem_append, List.mem_map]
+  exact Or.inr ⟨d, hd, rfl⟩
+
+/-- FULL STATEMENT of the status clause of send_cb_once — NOT proved in Lean (only the exactly-once /
+partition part above is).  On the implementation it is evaluated by the monitors `send-cb-status`,
+`reported-sent-not-on-wire`, `reported-failed-but-sent` of checks/c10.py and by the line-by-line
+correspondence.  Missing in Lean: an invariant relating the statuses stored in the completed queue to the
+system-call log (`klog`) through `sendmsgAgain`. -/
+def send_cb_status_statement : Prop :=
+  ∀ (sc : Script) (conn mm : Bool) (steps : List Step),
+    ∀ c ∈ (reach sc conn mm steps).cbs,
+      (c.2 = 0 ↔ c.1 ∈ (reach sc conn mm steps).wire.map (·.seq))
+      ∧ (c.2 ≠ 0 → c.2 = UV_ECANCELED ∨
+          ∃ k ∈ (reach sc conn mm steps).klog, k.res < 0 ∧ k.offered.head?.map (·.seq) = some c.1 ∧ c.2 = mapErr k.res)
+
 /-! ### dgram_at_most_once_in_order -/
 
 /-- the datagrams handed to the OS are an in-order subsequence of the datagrams submitted on the handle
@@ -232,5 +253,25 @@ theorem recv_progress {σ : Type} (u : RecvUser σ) (s : σ) (q : List RItem) :
 then EAGAIN ends the invocation (the old code span forever here) -/
 example : (recvmsg (plainUser true 1000) () [.dg ⟨50, false, 7⟩]).evs =
     [.alloc 1000, .cb ⟨50, some ⟨0, 0, 1000⟩, 7, 0⟩, .alloc 1000, .cb ⟨0, some ⟨1, 0, 1000⟩, 0, 0⟩] := by decide
+
+def dgsOf (q : List RItem) : List RDg := q.filterMap fun | .dg d => some d | _ => none
+def deliveries (evs : List REv) : List CbArgs :=
+  evs.filterMap fun | .cb a => if a.peer ≠ 0 then some a else none | _ => none
+
+/-- FULL STATEMENT of recv_payload_exact — NOT proved in Lean.  On the implementation it is evaluated by the
+monitor `recv-payload` (every delivered callback against the scripted socket queue: length = min(kernel
+length, buffer length), sender, UV_UDP_PARTIAL iff MSG_TRUNC, payload bytes) and by the correspondence.  The
+datagrams consumed from the socket queue are delivered in order, one callback each, with the length, sender and
+truncation flag the kernel reported (unless the user stops inside a chunk callback: the rest of that batch is
+dropped). -/
+def recv_payload_exact_statement : Prop :=
+  ∀ {σ : Type} (u : RecvUser σ) (s : σ) (q : List RItem),
+    (∀ d ∈ dgsOf q, d.peer ≠ 0) →
+    (∀ s a, hasChunk a.flags = true → u.recvSet s = true → u.recvSet (u.cb s a) = true) →
+    ∃ pre, q = pre ++ (recvmsg u s q).q ∧
+      (deliveries (recvmsg u s q).evs).length = (dgsOf pre).length ∧
+      ∀ p ∈ (deliveries (recvmsg u s q).evs).zip (dgsOf pre),
+        p.1.peer = p.2.peer ∧ (p.1.flags / FLAG_PARTIAL % 2 = 1 ↔ p.2.trunc = true)
+        ∧ ∃ b, p.1.buf = some b ∧ p.1.nread = min p.2.len b.len
 
 end UvModel.Udp.C10
